@@ -638,6 +638,10 @@ func init() {
 				if o.Rule == "REQ" && subjHas(o, "Diff reads") {
 					return true
 				}
+				// Slice / Size equal the put order: a Put that is refused because the buffer is closed leaves nothing behind
+				if ruleIn(o, "AT") && funcHas(o, "(*Buffer).Put") {
+					return true
+				}
 				return false
 			})
 			var mine []*an.Oblig
